@@ -26,7 +26,7 @@ RULE = ("G = connect_coding_graph(k, mask, t) for sparse / dense / filter masks,
         "candidates; |E| = 1: detected == 1 iff the corrupted strand is not a walk (else 0); substitutions only: the same with "
         "has_indel=False. Non-trivial: the corrupted strand is not a walk of G (an error is there to be found); distinct = hash of "
         "(graph, start, walk, edits, options)."
-        ' Also: order-8 generated graphs (vertex indices beyond 2^15) and edit sequences in which one accessor object is refilled in place with another generated graph between repairs.')
+        ' Also: order-8 generated graphs (vertex indices beyond 2^15) and edit sequences in which one accessor object is refilled in place with another generated graph between repairs; build-use-release campaigns over mirror-image constraint sets (GC windows [0,0.5] / [0.5,1], a motif and its complement / reversal) in which every graph object is dropped before the next is built.')
 HEAP = 1e6
 
 
@@ -53,6 +53,10 @@ def generate(ctx):
                     kind = rng.choice("SSID")
                     e = ["S", p, rng.choice([c for c in "ACGT" if c != w[p]])] if kind == "S" else ["I", p, rng.choice("ACGT")] if kind == "I" else ["D", p]
                     yield "edit_set", dict(g8, start=st, walk=w, edits=[e], check=rng.choice([0, 4]), indel=True)
+    for _ in range(ctx.pick(1, 4)):
+        # build-use-release campaigns over constraint sets that are mirror images of each other (same order, same size,
+        # same number of arcs): every graph object is dropped before the next one is built
+        yield "twin_campaign", dict(seed=rng.getrandbits(40), rounds=ctx.pick(6, 12))
     for _ in range(ctx.pick(20, 200)):   # G2: the same array object refilled with another graph between repairs
         k = rng.choice([1, 2, 2, 3])
         states = []
@@ -152,6 +156,46 @@ def check_edit_sequence(ctx, case):
     ctx.cls("edit sequences (same accessor object refilled in place)")
 
 
+def check_twin_campaign(ctx, case):
+    import random as _r
+    dsw = import_dsw()
+    rng = _r.Random(case["seed"])
+    settings = [(k, hp, gc, None) for k in (3, 4) for hp in (2, 3) for gc in ([0.0, 0.5], [0.5, 1.0], [0.25, 0.75])]
+    for k in (3, 4):
+        m = gens.random_dna(rng, 2)
+        settings += [(k, None, None, [m]), (k, None, None, [oracles.revcomp(m)]), (k, None, None, [m[::-1]]),
+                     (k, None, None, ["".join({"A": "T", "C": "G", "G": "C", "T": "A"}[c] for c in m)])]
+    plan = settings * case["rounds"]
+    rng.shuffle(plan)
+    for k, hp, gc, motifs in plan:
+        filt = dsw.LocalBioFilter(observed_length=k, max_homopolymer_runs=hp, gc_range=gc, undesired_motifs=motifs)
+        try:
+            acc = dsw.connect_coding_graph(k, dsw.find_vertices(k, filt), 1)[1]
+        except ValueError:
+            continue
+        shadow = np.array(acc)                     # the oracle's own copy; `acc` is the only reference to the library's object
+        live = G.live_vertices(shadow)
+        if not live:
+            continue
+        arcs = G.acc_to_hex(shadow)
+        for _w in range(2):
+            start = int(rng.choice(live))
+            w = G.random_walk(shadow, start, 5 * k + 6, rng)
+            if len(w) < 3 * k + 2:
+                continue
+            for _e in range(4):
+                p = rng.randrange(k, len(w) - 2 * k)
+                kind = rng.choice("SSSID")
+                e = ["S", p, rng.choice([c for c in "ACGT" if c != w[p]])] if kind == "S" else ["I", p, rng.choice("ACGT")] if kind == "I" else ["D", p]
+                before = ctx.violation_count
+                _judge(ctx, dsw, dict(arcs=arcs, start=start, fam="twin-campaign"), acc, k, w, [e], rng.choice([0, 4]), True, "edit_set")
+                if ctx.violation_count > before:
+                    ctx.violations[-1]["check"], ctx.violations[-1]["case"] = "twin_campaign", case
+                    return
+        del acc, filt
+        ctx.cls("build-use-release campaigns on mirror-image constraint sets")
+
+
 def _judge(ctx, dsw, case, acc, k, w, edits, check_len, has_indel, sub_name):
     start = case["start"]
     corrupted = gens.apply_edits(w, [tuple(e) for e in edits])
@@ -160,7 +204,7 @@ def _judge(ctx, dsw, case, acc, k, w, edits, check_len, has_indel, sub_name):
     kind, res, _r, steps = call_repair(dsw, corrupted, acc, start, k, check=check, has_indel=has_indel, heap=HEAP)
     where = "k=%d start=%s walk=%s edits=%s corrupted=%s check=%s has_indel=%s graph=%s" % (
         k, G.kmer(start, k), w, edits, corrupted, check, has_indel, case["arcs"])
-    cw = G.walk(acc, start, corrupted)
+    cw = G.walk(case.get("shadow", acc), start, corrupted)
     if kind != "ok" or not well_formed(res):
         ctx.fail("repair-" + (kind if kind != "ok" else "malformed-result"), "repair_dna %s; %s" % (
             ("raised %s: %s" % (type(res).__name__, res)) if kind == "raised" else kind if kind != "ok" else repr(res)[:200], where), sub_name, sub)
@@ -218,13 +262,13 @@ def check_edit_set(ctx, case):
     _judge(ctx, dsw, case, acc, case["k"], case["walk"], case["edits"], case["check"], case["indel"], "edit_set")
 
 
-CHECKS = {"single_edits": check_single_edits, "edit_set": check_edit_set, "edit_sequence": check_edit_sequence}
+CHECKS = {"twin_campaign": check_twin_campaign, "single_edits": check_single_edits, "edit_set": check_edit_set, "edit_sequence": check_edit_sequence}
 
 
 def floors(agg, tier):
     out = []
     c = agg["classes"]
-    for name, need in (("edit sequences (same accessor object refilled in place)", 100), ("family|order-8", 50),
+    for name, need in (("edit sequences (same accessor object refilled in place)", 100), ("family|order-8", 50), ("build-use-release campaigns on mirror-image constraint sets", 200),
                        ("same edit at positions with identical local context", 1000)):
         if c.get(name, 0) < need:
             out.append("%s observed %d < %d" % (name, c.get(name, 0), need))
